@@ -192,10 +192,21 @@ pub fn sweep(rep: &mut Report, stride: u64) {
                         out.push((x, format!("generate({}, {}) = {}", lo, hi, v)));
                     }
                 }
+                // shuffle itself must stay in bounds (it may clamp the drawn index) and return a permutation
+                for len in [1usize, 2, 3, 5].iter() {
+                    let mut v: Vec<usize> = (0..*len).collect();
+                    let ok = std::panic::catch_unwind(std::panic::AssertUnwindSafe(|| Generator::create(x).shuffle(&mut v))).is_ok();
+                    let mut sorted = v.clone();
+                    sorted.sort();
+                    if (!ok || sorted != (0..*len).collect::<Vec<usize>>()) && out.len() < 4 {
+                        out.push((x, format!("shuffle of length {} {}", len, if ok { "is not a permutation" } else { "panicked" })));
+                    }
+                }
+                // the value used as an index never exceeds the length
                 for len in lens.iter() {
                     let v = Generator::create(x).generate(0.0, *len as f32);
-                    if (v as usize) >= *len && out.len() < 4 {
-                        out.push((x, format!("index {} for length {}", v as usize, len)));
+                    if !(v >= 0.0 && v <= *len as f32) && out.len() < 4 {
+                        out.push((x, format!("generate(0, {}) = {}", len, v)));
                     }
                 }
                 x += stride;
